@@ -24,3 +24,4 @@ CFG = {'level': 'fault_enumeration',
 CFG['level_text'] += ' Each batch ends with 40 (thorough 400) rounds of honest reads from eight goroutines at mixed tile heights, each with its own reader: every read must succeed with the true hashes.'
 CFG['level_text'] += ' Honest reads through tiles are also made on virtual logs of 2^31 … 2^61 records at heights 1, 3 and 8, including stored hashes of level 33 and above.'
 CFG['level_text'] += ' Every other concurrent round shares one reader among the eight goroutines; the empty request is part of every (n, h) case.'
+CFG['level_text'] += ' Tile height 30, the largest accepted, is part of both tiers.'
